@@ -1,6 +1,6 @@
 // Copyright 2023 Oxide Computer Company
 
-use std::collections::HashSet;
+use std::collections::BTreeSet;
 
 use quote::ToTokens;
 use syn::{
@@ -26,7 +26,9 @@ impl TypeAndImpls {
         const DEFAULT_IMPLS: [TypeSpaceImpl; 2] = [TypeSpaceImpl::FromStr, TypeSpaceImpl::Display];
 
         let name = self.type_name.to_token_stream().to_string();
-        let mut impls = DEFAULT_IMPLS.into_iter().collect::<HashSet<_>>();
+        // A sorted set: the order of the resulting `Vec<TypeSpaceImpl>` is observable
+        // (it is part of the derived equality of native type entries).
+        let mut impls = DEFAULT_IMPLS.into_iter().collect::<BTreeSet<_>>();
         self.impls.into_iter().for_each(
             |ImplTrait {
                  modifier,
